@@ -4,6 +4,9 @@ import (
 	"fmt"
 	"github.com/consensys/gnark-crypto/ecc/bn254/fr"
 	"github.com/consensys/gnark/frontend"
+	"github.com/wormhole-foundation/example-near-light-client/fri"
+	gl "github.com/wormhole-foundation/example-near-light-client/goldilocks"
+	"github.com/wormhole-foundation/example-near-light-client/variables"
 	"math/big"
 	"strings"
 	"verifharness/ref"
@@ -268,6 +271,27 @@ func init() {
 						}
 						cs = append(cs, fw.Case{ID: fmt.Sprintf("%s/longerpath/pair%d", name, k), Kind: "longerpath", P: map[string]any{"inst": name, "pair": k}})
 					}
+					// FRI level: VerifyFriProof driven with the challenges of the unaltered proof. Lists
+					// inside the query rounds are not bound by the transcript; an alteration of them
+					// (in one round, or the same one in every round) must be refused there too, also
+					// when a transcript-bound list is altered along with it.
+					if name == "A_testdata" || !ctx.Quick {
+						nr := len(in.PWI.Proof.OpeningProof.QueryRoundProofs)
+						rel := []string{"Steps", "Steps[0].Evals", "Steps[1].MerkleProof.Siblings", "InitialTreesProof.EvalsProofs", "InitialTreesProof.EvalsProofs[0].Elements", "InitialTreesProof.EvalsProofs[2].MerkleProof.Siblings"}
+						cs = append(cs, fw.Case{ID: name + "/frilevel/control", Kind: "frilevel", P: map[string]any{"inst": name, "rel": "", "op": "", "where": "", "with": ""}})
+						for _, rl := range rel {
+							for _, op := range []string{"duplast", "appendzero", "droplast"} {
+								for _, where := range []string{"first", "last", "all"} {
+									for _, with := range []string{"", "dupcap", "appendfinal"} {
+										if ctx.Quick && with != "" && where != "all" {
+											continue
+										}
+										cs = append(cs, fw.Case{ID: fmt.Sprintf("%s/frilevel/%s/%s/%s/%s", name, rl, op, where, with), Kind: "frilevel", P: map[string]any{"inst": name, "rel": rl, "op": op, "where": where, "with": with, "rounds": nr}})
+									}
+								}
+							}
+						}
+					}
 					for i, e := range edits {
 						if ctx.Quick && name != "A_testdata" && i%3 != 0 {
 							continue
@@ -304,6 +328,71 @@ func init() {
 						return fw.Outcome{Trivial: true}
 					}
 					what = fmt.Sprintf("%s len %d -> %d", c.Str("listkind"), before, lr.Len())
+				case "frilevel":
+					rcx, err := getRoundCtx(in.Name)
+					if err != nil {
+						return fw.Inconcl(err.Error())
+					}
+					nr := len(in.PWI.Proof.OpeningProof.QueryRoundProofs)
+					applied := 0
+					if c.Str("rel") != "" {
+						var rounds []int
+						switch c.Str("where") {
+						case "first":
+							rounds = []int{0}
+						case "last":
+							rounds = []int{nr - 1}
+						default:
+							for j := 0; j < nr; j++ {
+								rounds = append(rounds, j)
+							}
+						}
+						lists := circ.Lists(&in.PWI)
+						for _, j := range rounds {
+							want := fmt.Sprintf("Proof.OpeningProof.QueryRoundProofs[%d].%s", j, c.Str("rel"))
+							for i := range lists {
+								if lists[i].Path == want && lists[i].Mutate(c.Str("op")) {
+									applied++
+								}
+							}
+						}
+						if applied == 0 {
+							return fw.Outcome{Trivial: true}
+						}
+					}
+					switch c.Str("with") {
+					case "dupcap":
+						cp := in.PWI.Proof.OpeningProof.CommitPhaseMerkleCaps
+						in.PWI.Proof.OpeningProof.CommitPhaseMerkleCaps = append(append([]variables.FriMerkleCap{}, cp...), cp[len(cp)-1])
+					case "appendfinal":
+						fp := in.PWI.Proof.OpeningProof.FinalPoly.Coeffs
+						in.PWI.Proof.OpeningProof.FinalPoly.Coeffs = append(append([]gl.QuadraticExtensionVariable{}, fp...), gl.QuadraticExtensionVariable{gl.NewVariable(0), gl.NewVariable(0)})
+					}
+					res := harnRunOpt(engine.Options{Face: engine.Native}, func(api frontend.API) error {
+						cd := in.Common
+						fc := fri.NewChip(api, &cd, &cd.FriParams)
+						caps := []variables.FriMerkleCap{in.VD.ConstantSigmasCap, in.PWI.Proof.WiresCap, in.PWI.Proof.PlonkZsPartialProductsCap, in.PWI.Proof.QuotientPolysCap}
+						ch := rcx.challenges
+						fc.VerifyFriProof(fc.GetInstance(ch.PlonkZeta), fc.ToOpenings(in.PWI.Proof.Openings), &ch.FriChallenges, caps, &in.PWI.Proof.OpeningProof)
+						return nil
+					})
+					o.Events += events(res) + 1
+					if io, bad := inconclusiveIf(res); bad {
+						return io
+					}
+					if c.Str("rel") == "" {
+						if !res.AcceptedHonestly() {
+							return fw.Inconcl("FRI-level control (unaltered proof, recorded challenges) not accepted: " + resStr(res))
+						}
+						o.Inc("frilevel_control_accepted")
+						return o
+					}
+					if res.Verdict == engine.Accept {
+						return fw.Violate("accepts_shape_change_at_fri_level:"+c.Str("rel")+":"+c.Str("op"), fmt.Sprintf("case %s: %d list(s) altered (%s) together with [%s]: VerifyFriProof with the unaltered proof's challenges accepted", c.ID, applied, c.Str("where"), c.Str("with")))
+					}
+					o.Inc("frilevel_" + res.Verdict.String())
+					o.Sample = map[string]any{"lists_altered": applied, "with": c.Str("with"), "verdict": resStr(res)}
+					return o
 				case "longerpath":
 					k := c.Int("pair")
 					lde := uint(in.Common.FriParams.DegreeBits + in.Common.FriParams.Config.RateBits)
